@@ -548,6 +548,27 @@ func genC12(r *RNG, tier string) []Case {
 	return cs
 }
 
+// chunksC12: thorough tier = the ordinary generator plus ALL 2^24 raw values of the two 3-byte encodings
+// (DATE / NEWDATE and the old TIME), compared between implementation and model (most raw values denote no valid
+// date, so there is no Spec column for them; the valid sub-lattice has one in genC12).
+func chunksC12(r *RNG, tier string) []func() []Case {
+	out := []func() []Case{func() []Case { return genC12(r, tier) }}
+	const step = 1 << 19
+	for _, typ := range []int{10, 11} {
+		for lo := 0; lo < 1<<24; lo += step {
+			lo, typ := lo, typ
+			out = append(out, func() []Case {
+				cs := make([]Case, 0, step)
+				for v := lo; v < lo+step; v++ {
+					cs = append(cs, rawCellCase(typ, 0, false, []byte{byte(v), byte(v >> 8), byte(v >> 16)}, 0, "", fmt.Sprintf("raw24-exhaustive-type%d", typ), true))
+				}
+				return cs
+			})
+		}
+	}
+	return out
+}
+
 // timestamps depend on the process time zone: generated and run per zone (time.Local is switched
 // between batches, never concurrently with a batch)
 func extraC12(col *Collector, r *RNG, tier string) {
@@ -694,8 +715,8 @@ func init() {
 		Rule: "abstract values -> Spec writer bytes (Lean) -> real CellBytes/cellLength vs Lean model vs canonical text; 8/16-bit domains exhaustive x2 signedness, 24-bit exhaustive in thorough, 32/64-bit boundaries + random, all YEAR bytes, BIT 1..64, ENUM 1-2, SET 1..8, float classes + random bits (float texts checked to parse back to the same bits, exponent-free). Non-trivial: value != 0"})
 	register(&Property{ID: "C11", Gen: genC11, Replay: replayCell,
 		Rule: "every valid (p,s), p in 1..65, s in 0..min(30,p) x {zero, all nines, single low digit, each 9-digit group first non-zero, random} x sign; non-trivial: value != 0"})
-	register(&Property{ID: "C12", Gen: genC12, Extra: extraC12, Replay: replayCell,
-		Rule: "DATE lattice (every 37th point quick / every 3rd thorough, all points of the boundary years), old TIME both signs to 838h, old DATETIME, TIME2/DATETIME2/TIMESTAMP2 fsp 0..6 boundary+random, TIMESTAMP under several process time zones (offset and civil text obtained from the time package directly); non-trivial: not the all-zero value"})
+	register(&Property{ID: "C12", Gen: genC12, Chunks: chunksC12, Extra: extraC12, Replay: replayCell,
+		Rule: "DATE lattice (every 37th point quick / every 3rd thorough, all points of the boundary years), old TIME both signs to 838h, old DATETIME, TIME2/DATETIME2/TIMESTAMP2 fsp 0..6 boundary+random, all 2^24 raw values of the 3-byte DATE and old TIME encodings impl-vs-model in thorough, TIMESTAMP under several process time zones (offset and civil text obtained from the time package directly); non-trivial: not the all-zero value"})
 	register(&Property{ID: "C13", Gen: genC13, Replay: replayCell,
 		Rule: "declared lengths VARCHAR {0,1,2,254..257,1000,65535,random}, CHAR 0..1023, blob length bytes 1..4 x actual lengths {0,1,255,256,max,random} x arbitrary bytes; NULL/empty/absent via the row-column cases; non-trivial: non-empty payload"})
 }
